@@ -6,7 +6,8 @@ becomes undecided, never a violation):
                                                   (RLock: owned by the acquiring thread, re-entrant, release by another
                                                   thread is an error - modelled with an owner variable)
    lock.acquire() / lock.release()                `lock` a method parameter (bound at the call site)
-   self.C += 1 / self.C -= 1                      split into a READ and a WRITE micro-step (no atomicity assumed)
+   self.C += k / self.C -= k  (k an int literal)  split into a READ and a WRITE micro-step (no atomicity assumed)
+   pass                                           a step without effect
    if self.C == k: <one of the lock statements>
    self.S.m(self.L)                               call of a method of an attribute object S = _LightSwitch()
 Output: for a thread kind (reader: reader_acquire; CS; reader_release - writer analogously), the list of guarded
@@ -47,6 +48,7 @@ class Extractor:
             raise ExtractError("classes RWLock / _LightSwitch not found")
         self.locks = []       # shared lock variables
         self.rlocks = set()   # those of them that are re-entrant, OWNED locks (threading.RLock)
+        self.counter_init = 0
         self.counters = []
         self.fields = {}      # RWLock field -> ('lock', name) | ('switch', name)
         self._init()
@@ -92,8 +94,9 @@ class Extractor:
             if isinstance(st, ast.Assign):
                 n = _attr_name(st.targets[0])
                 if n == "counter":
-                    if not (isinstance(st.value, ast.Constant) and st.value.value == 0):
-                        raise ExtractError("_LightSwitch counter does not start at 0")
+                    if not (isinstance(st.value, ast.Constant) and isinstance(st.value.value, int) and not isinstance(st.value.value, bool)):
+                        raise ExtractError("_LightSwitch counter is not initialised with an int literal")
+                    self.counter_init = st.value.value
                 elif n == "mutex":
                     v = st.value
                     fresh = isinstance(v, ast.Call) and isinstance(v.func, ast.Attribute) and v.func.attr in ("Lock", "RLock") and not v.args
@@ -120,6 +123,8 @@ class Extractor:
     # one statement of a method body -> list of Cmd
     def _stmt(self, st, method, env, switch=None):
         where = (method, st.lineno)
+        if isinstance(st, ast.Pass):
+            return [Cmd("nop", src=where)]          # a source line of its own (the replay steps line by line), no effect
         if isinstance(st, ast.Expr) and isinstance(st.value, ast.Constant):
             return []
         if isinstance(st, ast.Expr) and isinstance(st.value, ast.Call):
@@ -147,15 +152,17 @@ class Extractor:
                     m = self._methods("_LightSwitch").get(f.attr)
                     if m is None or len(m.args.args) != 2:
                         raise ExtractError("unknown _LightSwitch method %s" % f.attr)
-                    out = []
+                    out = [Cmd("nop", src=where)]       # the call line itself is a source line (replay granularity)
                     for inner in m.body:
                         out.extend(self._stmt(inner, "_LightSwitch." + f.attr, {m.args.args[1].arg: larg}, switch=s))
                     return out
             raise ExtractError("unsupported call (line %d)" % st.lineno)
         if isinstance(st, ast.AugAssign) and switch is not None and _attr_name(st.target) == "counter" \
-                and isinstance(st.value, ast.Constant) and st.value.value == 1 and isinstance(st.op, (ast.Add, ast.Sub)):
+                and isinstance(st.value, ast.Constant) and isinstance(st.value.value, int) and not isinstance(st.value.value, bool) \
+                and isinstance(st.op, (ast.Add, ast.Sub)):
             var = switch + ".counter"
-            return [Cmd("read", var, src=where), Cmd("write+" if isinstance(st.op, ast.Add) else "write-", var, src=where)]
+            return [Cmd("read", var, src=where),
+                    Cmd("write+" if isinstance(st.op, ast.Add) else "write-", var, k=st.value.value, src=where)]
         if isinstance(st, ast.If) and switch is not None and not st.orelse and len(st.body) == 1:
             t = st.test
             if isinstance(t, ast.Compare) and len(t.ops) == 1 and isinstance(t.ops[0], ast.Eq) \
